@@ -24,7 +24,7 @@ func init() {
 		Real:        []string{"cmd/mp4ff-crop: cropMP4 and everything below it; mp4ff packages (compiled from /repo's working tree)"},
 		Stub:        []string{"input file (SimDisk handle: delivery, EIO, seek error, truncation)", "output file (recording sink with write faults)", "virtual device time"},
 		RealNoFault: append([]string{"run(): flag parsing, os.Open, os.Create (smoke run on a real scratch directory)"}, realNoFault...),
-		Runs:        map[string]int{"quick": 20000, "thorough": 1500000},
+		Runs:        map[string]int{"quick": 300000, "thorough": 20000000},
 		WantFaults:  []string{"read-short", "read-zero", "read-eio", "seek-eio", "disk-truncated", "write-eio", "write-full"},
 		WantProbes:  []string{"crop-succeeded", "crop-failed", "crop-beyond-end", "muxer-file", "corpus-file", "layout-variant"},
 	})
@@ -41,7 +41,7 @@ func init() {
 		Real:        []string{"examples/segmenter: NewSegmenter, getSegmentStartsFromVideo, SetTargetSegmentation, make*Segments, copyMediaData, GetFullSamplesForInterval; mp4ff packages"},
 		Stub:        []string{"input file (SimDisk handle: delivery, EIO, seek error, truncation)", "virtual device time"},
 		RealNoFault: append([]string{"output files (real scratch directory via mp4.WriteToFile / os.Create)", "run(): flag parsing, os.Open (one smoke run)"}, realNoFault...),
-		Runs:        map[string]int{"quick": 6000, "thorough": 400000},
+		Runs:        map[string]int{"quick": 30000, "thorough": 1000000},
 		WantFaults:  []string{"read-short", "read-zero", "read-eio", "seek-eio", "disk-truncated"},
 		WantProbes:  []string{"segmenter-succeeded", "muxer-file", "corpus-file"},
 	})
@@ -56,7 +56,7 @@ func init() {
 		Real:        []string{"examples/resegmenter: Resegment, addSamplesToFrag, addNewSegment; mp4.MediaSegment.Fragmentify; mp4ff packages"},
 		Stub:        []string{"io.Reader delivery (SimDisk handle)", "virtual device time"},
 		RealNoFault: realNoFault,
-		Runs:        map[string]int{"quick": 15000, "thorough": 1000000},
+		Runs:        map[string]int{"quick": 100000, "thorough": 8000000},
 		WantProbes:  []string{"resegment-checked", "fragmentify-checked"},
 	})
 	sim.Register(&sim.Prop{
@@ -70,7 +70,7 @@ func init() {
 		Real:        []string{"examples/combine-segs: combineInitSegments, combineMediaSegments; mp4ff packages"},
 		Stub:        []string{"producer histories (packager node)"},
 		RealNoFault: append([]string{"scratch files read with os.ReadFile"}, realNoFault...),
-		Runs:        map[string]int{"quick": 5000, "thorough": 300000},
+		Runs:        map[string]int{"quick": 20000, "thorough": 500000},
 		WantProbes:  []string{"combine-checked"},
 	})
 }
